@@ -155,6 +155,16 @@ fn transcript<C: S>(g: &str, seed: u64, m: &mut Map<String, Value>) {
         let s = <C as HashToScalar>::hash_to_scalar(msg, b"xb salt");
         m.insert(format!("{}/hash-to-scalar/{}", g, i), json!(hx(s.to_repr())));
     }
+    // seeded CS-PRNG routes (deterministic given the seed)
+    for sd in [[0u8; 32], [7u8; 32]] {
+        use rand_core::SeedableRng;
+        let mk = || rand_chacha::ChaCha20Rng::from_seed(sd);
+        m.insert(format!("{}/seeded/{}/SecretKey::random", g, sd[0]), json!(hx(SecretKey::<C>::random(mk()).to_be_bytes())));
+        m.insert(format!("{}/seeded/{}/random_secret_key", g, sd[0]), json!(hx(BlsSignature::<C>::random_secret_key(mk()).to_be_bytes())));
+        m.insert(format!("{}/seeded/{}/ProofCommitmentChallenge::random", g, sd[0]), json!(hx(ProofCommitmentChallenge::<C>::random(mk()).to_be_bytes())));
+        m.insert(format!("{}/seeded/{}/random_proof_challenge", g, sd[0]), json!(hx(BlsSignature::<C>::random_proof_challenge(mk()).to_be_bytes())));
+        m.insert(format!("{}/seeded/{}/SecretKeyEnum::random", g, sd[0]), json!(hx(SecretKeyEnum::random(if g == "G1" { Bls12381::G1 } else { Bls12381::G2 }, mk()).to_be_bytes())));
+    }
     // timestamp challenge derivation
     let u = *ks[3].1.sign(SignatureSchemes::Basic, &ms[1]).unwrap().as_raw_value();
     for t in [0u64, 1_700_000_000_000, u64::MAX] {
